@@ -372,6 +372,66 @@ fn fam_medium(ctx: &CaseCtx, cov: &mut Cov) -> CaseOut {
     out
 }
 
+/// A stream whose last match costs 19 input bytes (the most a valid stream reaches
+/// with a 17 MiB history), cut at every position around that symbol, alone and
+/// after an earlier cut that leaves bytes in the carry-over buffer.
+fn fam_max_cost(ctx: &CaseCtx, cov: &mut Cov) -> CaseOut {
+    let mut out = CaseOut::default();
+    let mut rng = ctx.rng();
+    let slot = *rng.pick(&[41u32, 47]);
+    let mut prog = crate::gen::prog::floor_program(&mut rng, slot);
+    let with_marker = rng.chance(1, 2);
+    if with_marker {
+        prog.push(Sym::Eos);
+    }
+    let props = Props::new(0, 0, 0);
+    let (payload, table, hist) = match encode_program(&prog, props) {
+        Ok(x) => x,
+        Err(e) => {
+            out.harness_error(format!("{:?}", e));
+            return out;
+        }
+    };
+    let mut file = sut::lzma_header(props.byte(), 1 << 25, Some(if with_marker { None } else { Some(hist.len() as u64) }));
+    let hdr = file.len();
+    file.extend_from_slice(&payload);
+    let boundaries = boundaries_of(hdr, &table);
+    let inp = Input { file, options: sut::default_options(), desc: format!("floor program for distance slot {}: {} symbols, {} output bytes, marker {}", slot, prog.len(), hist.len(), with_marker), kind: 5, boundaries: boundaries.clone() };
+    let os = oneshot(&inp);
+    note_input(cov, &inp, &os);
+    if !os.verdict.is_ok() {
+        out.harness_error(format!("one-shot decoder rejects the constructed stream: {}", os.verdict.short()));
+        return out;
+    }
+    // the expensive symbol is the 4th from the end (before three literals [+ marker])
+    let ei = prog.len() - 4 - with_marker as usize;
+    let start = boundaries[ei - 1];
+    let end = boundaries[ei];
+    cov.max("max_cost_symbol_bytes", (end - start) as u64);
+    let d = DriveOpts::default();
+    let n = inp.file.len();
+    let lo = start.saturating_sub(3);
+    let hi = (end + 3).min(n);
+    for c in lo..=hi {
+        if !compare(&mut out, cov, ctx, &inp, &os, &[c], &d, "single cut around the 19-byte symbol") {
+            return out;
+        }
+    }
+    let earlier = ctx.tier.pick(3, 30);
+    for k in 0..earlier {
+        // an earlier cut inside some previous symbol leaves bytes in the carry-over buffer
+        let c0 = if k % 2 == 0 { start.saturating_sub(1 + k as usize) } else { boundaries[ei.saturating_sub(2 + k as usize)] + 1 };
+        for c in (start + 1)..=hi.min(start + 22) {
+            if c0 < c && !compare(&mut out, cov, ctx, &inp, &os, &[c0, c], &d, "earlier cut + cut inside the 19-byte symbol") {
+                return out;
+            }
+        }
+    }
+    out.nontrivial.push(case_hash(&[&inp.file, b"maxcost"]));
+    out.sample = Some(J::obj().set("input", J::s(inp.desc.as_str())).set("len", J::i(n)).set("expensive_symbol_bytes", J::i(end - start)));
+    out
+}
+
 const PATTERNS: [&str; 8] = [
     "constant piece size 1..24",
     "sizes from {0,1,2,3,12,13,17,18,19,20,21}",
@@ -472,6 +532,9 @@ fn floors(_: Tier, cov: &Cov) -> Vec<String> {
     if cov.group_nonzero("header_tmp_fill") < 12 {
         m.push(format!("header staging buffer seen at only {} fill levels", cov.group_nonzero("header_tmp_fill")));
     }
+    if cov.maxes.get("max_cost_symbol_bytes").copied().unwrap_or(0) < 19 {
+        m.push("no 19-byte symbol was fed to the streaming decoder".into());
+    }
     if cov.group_nonzero("oneshot_verdict") < 2 {
         m.push("only one verdict class among inputs".into());
     }
@@ -482,13 +545,14 @@ pub fn monitor(tier: Tier) -> Monitor {
     Monitor {
         id: "C05",
         level: "exploration",
-        rule: "cases = (input bytes, decode option, division into write calls): inputs of 8 kinds (C08 table cells incl. wrong sizes / trailing / truncated under all 5 option shapes, bit-flipped, spliced, liblzma streams, dumb-encoder streams, garbage behind a valid header, expensive-symbol programs, header-only prefixes); chunkings: ALL single cuts and ALL pairs of cuts for inputs <= 64 bytes (thorough: also all triples for inputs <= 26 bytes), every single cut for inputs <= 700 bytes (thorough: 4 KiB), 8 pattern families (piece sizes 1..24, sizes around the 20-byte look-ahead, random, empty writes, flush, write_all, symbol boundary +-1); each history compared with the one-shot decoder on the concatenation (verdict; bytes on success); evaluations = stream histories run; distinct by hash of (input, option, cuts) resp. one per exhaustively cut input",
+        rule: "cases = (input bytes, decode option, division into write calls): inputs of 8 kinds (C08 table cells incl. wrong sizes / trailing / truncated under all 5 option shapes, bit-flipped, spliced, liblzma streams, dumb-encoder streams, garbage behind a valid header, expensive-symbol programs, header-only prefixes); chunkings: ALL single cuts and ALL pairs of cuts for inputs <= 64 bytes (thorough: also all triples for inputs <= 26 bytes), every single cut for inputs <= 700 bytes (thorough: 4 KiB), a stream whose last match costs 19 input bytes (17 MiB history) cut at every position around that symbol with and without an earlier cut, 8 pattern families (piece sizes 1..24, sizes around the 20-byte look-ahead, random, empty writes, flush, write_all, symbol boundary +-1); each history compared with the one-shot decoder on the concatenation (verdict; bytes on success); evaluations = stream histories run; distinct by hash of (input, option, cuts) resp. one per exhaustively cut input",
         assumptions: vec![
             "oracle is lzma-rs' own one-shot decoder (the property is an equivalence); that decoder is pinned by C01/C08".into(),
             "error text and the call at which an error surfaces may differ; only the final verdict and, on success, the bytes are compared".into(),
             "a write returning Ok(0) for a non-empty piece is accepted only when the snapshot hook shows the declared size has been produced".into(),
         ],
         families: vec![
+            Family { name: "max_cost_symbol", count: tier.pick(2, 24), priority: true, enumerated: false, run: fam_max_cost },
             Family { name: "small_exhaustive", count: tier.pick(600, 30_000), priority: false, enumerated: false, run: fam_small },
             Family { name: "medium_single_cuts", count: tier.pick(250, 8_000), priority: false, enumerated: false, run: fam_medium },
             Family { name: "patterns", count: tier.pick(2_500, 120_000), priority: false, enumerated: false, run: fam_patterns },
